@@ -11,14 +11,17 @@
 (***************************************************************************)
 EXTENDS Analyzer, Http2, Json, IOUtils, TLC, SequencesExt
 
-Shared == IOEnv.VERIF_DEV = "D07_shared_hpack"
+ResetOnSuccess == IOEnv.VERIF_DEV = "D07_reset_on_success"      \* one decoder, emptied only after a block that decoded
+Shared == IOEnv.VERIF_DEV = "D07_shared_hpack" \/ ResetOnSuccess
 Mode == IOEnv.VERIF_MODE          \* "model" (abstract scripts) | "sched" (schedules for the lengths in VERIF_LENS)
 
 P(o) == [k |-> "plain", out |-> o]
 ModelScripts == <<
   <<P("synA"), [k |-> "ins", e |-> "x-secret: alice"], [k |-> "ref"]>>,          \* A: inserts, then references its own entry
   <<P("synB"), [k |-> "ref"]>>,                                                  \* B: bare reference - undecodable on its own
-  <<[k |-> "zero"], P("dataC")>>                                                 \* C: table size update to 0
+  <<[k |-> "zero"], P("dataC")>>,                                                \* C: table size update to 0
+  <<[k |-> "zerofail"]>>,                                                        \* D: sets the size to 0, then an invalid index
+  <<[k |-> "insfail", e |-> "x-leak: mallory"]>>                                 \* E: inserts, then an invalid index
 >>
 LensStr == IOEnv.VERIF_LENS
 \* lengths "a,b,c" (single digits)
@@ -33,7 +36,7 @@ Packet(c) ==
   /\ pos[c] < Len(Scripts[c])
   /\ LET r == StepOn(Scripts[c][pos[c] + 1], IF Shared THEN shared ELSE tabs[c]) IN
        /\ outs' = [outs EXCEPT ![c] = Append(@, r.out)]
-       /\ IF Shared THEN shared' = r.t /\ UNCHANGED tabs ELSE tabs' = [tabs EXCEPT ![c] = r.t] /\ UNCHANGED shared
+       /\ IF Shared THEN shared' = (IF ResetOnSuccess /\ ~Fails(Scripts[c][pos[c] + 1], shared) THEN Fresh ELSE r.t) /\ UNCHANGED tabs ELSE tabs' = [tabs EXCEPT ![c] = r.t] /\ UNCHANGED shared
   /\ pos' = [pos EXCEPT ![c] = @ + 1] /\ sched' = Append(sched, c)
 Next == \E c \in 1..NC : Packet(c)
 Spec == Init /\ [][Next]_vars
@@ -55,6 +58,8 @@ H2Conns == [
   ins_ref |-> Client([updates |-> <<>>, fields |-> Pseudo \o <<Fd("x-secret", "alice-token", "inc"), Fd("x-secret", "alice-token", "idx"), Fd("user-agent", "agent-a", "inc")>>]),
   bare_ref |-> RawRef,
   zero_then_ins |-> Client([updates |-> <<0>>, fields |-> Pseudo \o <<Fd("x-b", "bob", "noidx")>>]),
+  zero_fail |-> Preface \o Std \o HeaderFrames(<<32>> \o EncodeFields(Pseudo, EmptyDyn).bytes \o <<254>>, 1, Plain),
+  ins_fail |-> Preface \o Std \o HeaderFrames(EncodeFields(Pseudo \o <<Fd("x-leak", "mallory", "inc")>>, EmptyDyn).bytes \o <<254>>, 1, Plain),
   legit |-> Client([updates |-> <<>>, fields |-> Pseudo \o <<Fd("x-own", "mine", "inc"), Fd("x-own", "mine", "idx"), Fd("user-agent", "agent-d", "noidx")>>])]
 ASSUME (Mode # "conns") \/ PrintT("STAT " \o ToJson(H2Conns))
 =============================================================================
